@@ -40,8 +40,10 @@ SHARED = {
             ("C33", "R2.flag-iff-present", "an attribute is applied exactly when its flag says it is present"),
             ("C33", "R1.group-agreement", "attribute fields are decoded in the order they were encoded")],
     "C33": [("C39", "R1.pair-agreement", "64-bit sizes are read with the encoding they were written with")],
-    "C35": [("C39", "R4.", "r and s survive the mpint encoding inside the signature blob")],
-    "C38": [("C18", "R4.", "server-only requests reaching a client are refused instead of dereferencing a missing server object")],
+    "C35": [("C36", "R3.ecdsa-coordinates-encoded-alike", "a signature verifies under the key object rebuilt from the public blob only if both coordinates are encoded at full width"),
+            ("C39", "R4.", "r and s survive the mpint encoding inside the signature blob")],
+    "C38": [("C43", "R1.selection-matches-statement", "every well-formed group-exchange request is answered with a group: a request the selection cannot serve must not end in KeyError on the transport thread"),
+            ("C18", "R4.", "server-only requests reaching a client are refused instead of dereferencing a missing server object")],
     "C09": [("C01", "R2.seq-increment", "the rollover guard fires on the wrap of the inbound counter: a KEXINIT after 2**32 packets must not look like the first packet")],
     "C10": [("C11", "R4.gated-sender-tests-gate-under-lock", "user traffic is held back from the moment our KEXINIT goes out: a send that slips past the gate makes the peer drop the session and the re-key never completes")],
     "C13": [("C11", "R5.no-gated-send-under-channel-lock", "a send that can block is never made under the channel lock the teardown path needs: the transport thread could not mark the connection ended")],
